@@ -36,6 +36,18 @@ def check(spec):
     for s1, s2 in zip(m.sources, ms.sources):
         if abs(s1.impedance - s2.impedance) > 1e-9 * abs(s1.impedance):
             viol.append({'id': 'impedance-changes-under-scaling', 'observed': [str(s1.impedance), str(s2.impedance)]})
+    # a common complex factor leaves the dBi pattern unchanged, and the power that normalises it is the net input power
+    from mininec.mininec import Angle
+    zen, azi = Angle(10, 35, 3 if spec['ground'] else 5), Angle(0, 70, 5)
+    m.compute_far_field(zen, azi)
+    ms.compute_far_field(Angle(10, 35, 3 if spec['ground'] else 5), Angle(0, 70, 5))
+    g1, g2 = np.array(m.far_field.gain), np.array(ms.far_field.gain)
+    sel = g1 > -60
+    if sel.any() and np.max(np.abs(g1[sel] - g2[sel])) > 1e-6:
+        viol.append({'id': 'dBi-pattern-changes-under-a-common-complex-factor', 'observed': float(np.max(np.abs(g1[sel] - g2[sel])))})
+    pnet = sum(0.5 * (s_.voltage * np.conj(m.current[s_.idx])).real for s_ in m.sources)
+    if abs(m.power - pnet) > 1e-9 * abs(pnet):
+        viol.append({'id': 'normalising-power-is-not-the-net-input-power', 'expected': float(pnet), 'observed': float(np.real(m.power))})
     tot = np.zeros(len(m.current), dtype=complex)
     for k in range(len(V)):
         single = [V[j] if j == k else 0j for j in range(len(V))]
